@@ -8,6 +8,7 @@ from hypothesis import strategies as st
 from vf.harness import Check
 from vf.gen import lens as GL
 from vf.gen.build import build
+from vf.gen.edit import edit_strategy, build_with_history, warm_all
 
 IMG = GL.Profile(max_surfs=5, shapes=['standard', 'standard', 'standard', 'even_asphere'], allow_mirror=False,
                  keep_edges=True, rho_min=3.0, steep_prob=0.0, ap_types=['EPD', 'imageFNO', 'objectNA'], max_field_deg=10.0,
@@ -60,7 +61,8 @@ class C12(Check):
         return st.fixed_dictionaries(dict(spec=GL.lens_spec(IMG, min_surfs=2), analysis=st.sampled_from(ANALYSES),
                                           fields=st.sampled_from(['all', 'all', 'explicit']),
                                           wls=st.sampled_from(['all', 'all', 'with_primary', 'without_primary', 'single']),
-                                          n=st.integers(0, 50), h=f(0.0, 1.0), px=f(-0.8, 0.8), py=f(-0.8, 0.8)))
+                                          n=st.integers(0, 50), h=f(0.0, 1.0), px=f(-0.8, 0.8), py=f(-0.8, 0.8),
+                                          edit=edit_strategy(('index', 'radius', 'thickness', 'conic'), p_none=4)))
 
     def describe(self, case):
         s = case['spec']
@@ -93,7 +95,11 @@ class C12(Check):
         finite = spec['obj']['t'] != GL.INF
         out.cls(*GL.spec_classes(spec))
         out.cls('analysis_' + case['analysis'], 'fields_' + case['fields'], 'wls_' + case['wls'])
-        o = build(spec)
+        # optionally the analysed lens is first queried, then edited through the public setters; the twin that supplies
+        # the independent rays is always built fresh from the prescription the analysed lens has now
+        o, spec, edited = build_with_history(spec, case.get('edit'), warm_all, keep_image_medium=True)
+        if edited:
+            out.cls('analysed_after_' + case['edit']['kind'] + '_edit')
         tw = build(spec)
         ps = GL.parax_sys(spec)
         ya, ua = ps.marginal(spec['ap']['type'], spec['ap']['value'])
@@ -114,6 +120,20 @@ class C12(Check):
             raise
         out.nt(offaxis and (len(Wl) >= 2 or explicit))
 
+    def maybe_draw(self, case, out, obj):
+        """For one case in three the analysis is drawn (view(), Agg) before its reported values are read: what it reports
+        must not depend on whether it has been looked at."""
+        if case['n'] % 3 != 0:
+            return
+        import matplotlib.pyplot as plt
+        try:
+            obj.view()
+            out.cls('drawn_before_reading')
+        except Exception:  # noqa   (a figure of undefined data is not part of the property)
+            out.cls('view_raised')
+        finally:
+            plt.close('all')
+
     def prim_ref(self, o, Wl, prim):
         """index of the reference (primary) wavelength inside the list handed to the analysis, or None if ambiguous"""
         pi = o.wavelengths.primary_index
@@ -126,6 +146,7 @@ class C12(Check):
         from optiland.analysis import SpotDiagram
         rings = 2 + case['n'] % 3
         sd = SpotDiagram(o, fields=flds, wavelengths=wls, num_rings=rings)
+        self.maybe_draw(case, out, sd)
         px, py = hexapolar(rings)
         ref = []
         for i, (hx, hy) in enumerate(F):
@@ -180,6 +201,7 @@ class C12(Check):
         kf = out.kf_open('C12-explicit-wavelength-index')
         try:
             rf = RayFan(o, fields=flds, wavelengths=wls, num_points=n)
+            self.maybe_draw(case, out, rf)
         except KeyError:
             if prim not in Wl:
                 if kf:
@@ -211,6 +233,7 @@ class C12(Check):
         rings = 2 + case['n'] % 3
         w = prim if wls == 'all' else Wl[0]
         ee = EncircledEnergy(o, fields=flds, wavelength=w, num_rays=rings, distribution='hexapolar', num_points=24)
+        self.maybe_draw(case, out, ee)
         px, py = hexapolar(rings)
         tot = []
         for i, (hx, hy) in enumerate(F):
@@ -240,6 +263,7 @@ class C12(Check):
         kf = out.kf_open('C12-explicit-wavelength-index')
         try:
             rv = RmsSpotSizeVsField(o, num_fields=nf, wavelengths=wls, num_rings=rings)
+            self.maybe_draw(case, out, rv)
         except IndexError:
             if o.wavelengths.primary_index >= len(Wl):
                 if kf:
@@ -291,6 +315,7 @@ class C12(Check):
         dtype = ['f-tan', 'f-theta'][case['n'] % 2]
         npts = 4 + case['n'] % 5
         d = Distortion(o, wavelengths=wls, num_points=npts, distortion_type=dtype)
+        self.maybe_draw(case, out, d)
         Hy = np.linspace(1e-10, 1, npts)
         for j, w in enumerate(Wl):
             o2 = tw
@@ -324,6 +349,7 @@ class C12(Check):
         npts = 3 + case['n'] % 3
         w = prim if wls == 'all' else Wl[0]
         gd = GridDistortion(o, wavelength=w, num_points=npts, distortion_type=dtype)
+        self.maybe_draw(case, out, gd)
         ext = np.linspace(-math.sqrt(2) / 2, math.sqrt(2) / 2, npts)
         HX, HY = np.meshgrid(ext, ext)
         tw.trace_generic(HX.flatten(), HY.flatten(), np.zeros(npts * npts), np.zeros(npts * npts), w)
@@ -363,6 +389,7 @@ class C12(Check):
         from vf.ref import trace as RT
         npts = 3 + case['n'] % 4
         fc = FieldCurvature(o, wavelengths=wls, num_points=npts)
+        self.maybe_draw(case, out, fc)
         Hy = np.linspace(0, 1, npts)
         near_parabola = any(s['type'] == 'standard' and s['R'] != GL.INF and abs(1 + s['k']) < 0.05 for s in spec['surfs'])
         if near_parabola and out.kf_open('C12-parabola-cancellation'):
@@ -486,6 +513,7 @@ class C12(Check):
         n = 5 + 2 * (case['n'] % 3)
         pa = PupilAberration(o, fields=flds if flds != 'all' else 'all', wavelengths=wls if wls != 'all' else 'all',
                              num_points=n)
+        self.maybe_draw(case, out, pa)
         F2 = o.fields.get_field_coords() if flds == 'all' else flds
         p = np.linspace(-1, 1, n)
         stop = ps.stop
